@@ -1,7 +1,8 @@
 // C05 — tampered, reflected or foreign ciphertexts are rejected: a systematic mutation stream over
 // valid ciphertexts produced by the real Cipher.Encrypt.  Every mutant goes to the real
 // DecryptFromBuffer (monitor: it must be rejected and the returned pointer must be nil) and to the
-// Lean model of it (correspondence: same error class / same result).
+// Lean model of it (correspondence: same error class / same result).  Cipher.Decrypt on the decoded
+// message (the second public entry point) must decide identically.
 package main
 
 import (
@@ -59,7 +60,7 @@ func newBase(c *hc.Ctx, n int) (base, bool) {
 }
 
 // try feeds one frame to the cipher whose encryptSide is `recv`, under key ak.
-func try(c *hc.Ctx, q *c04shared.Queue, kind string, recv crypto.Side, key crypto.Key, ak crypto.AuthKey, frame []byte, mustReject bool) {
+func try(c *hc.Ctx, q *c04shared.Queue, rt *c04shared.Retainer, kind string, recv crypto.Side, key crypto.Key, ak crypto.AuthKey, frame []byte, mustReject bool) {
 	var dec crypto.Cipher
 	if recv == crypto.Client {
 		dec = crypto.NewClientCipher(nil)
@@ -82,12 +83,30 @@ func try(c *hc.Ctx, q *c04shared.Queue, kind string, recv crypto.Side, key crypt
 	if err != nil && got != nil {
 		c.Fail("rejected-message-yields-data", line, "non-nil *EncryptedMessageData returned with error "+err.Error())
 	}
+	// the other public entry point, Cipher.Decrypt on an already decoded EncryptedMessage, must decide
+	// exactly like DecryptFromBuffer
+	var em crypto.EncryptedMessage
+	if em.Decode(&bin.Buffer{Buf: append([]byte{}, frame...)}) == nil {
+		got2, err2 := dec.Decrypt(ak, &em)
+		if (err2 == nil) != (err == nil) || c04shared.ErrTag(err2) != c04shared.ErrTag(err) {
+			key := "Decrypt-and-DecryptFromBuffer-disagree"
+			if mustReject && err2 == nil {
+				key = "accepted-" + kind + "-via-Decrypt"
+			}
+			c.Fail(key, line, fmt.Sprintf("Cipher.Decrypt: %s, Cipher.DecryptFromBuffer: %s", c04shared.ShowDecryptShort(got2, err2), c04shared.ShowDecryptShort(got, err)))
+		}
+		if err2 != nil && got2 != nil {
+			c.Fail("rejected-message-yields-data", line, "Cipher.Decrypt returned a non-nil result with error "+err2.Error())
+		}
+	}
 	q.Add(line, c04shared.ShowDecrypt(got, err))
+	c04shared.KeepDecrypted(rt, line, got)
 }
 
 func run(c *hc.Ctx) error {
 	r := c.Rng
 	var q c04shared.Queue
+	var rt c04shared.Retainer
 	nb := c.N(100, 4500)
 	for i := 0; i < nb; i++ {
 		n := 4 * hc.Pick(r, 0, 1, 2, 3, 4, 5, 8, 16, 33, r.Range(0, 64), r.Range(0, 300))
@@ -98,8 +117,9 @@ func run(c *hc.Ctx) error {
 		if err := q.MaybeFlush(c); err != nil {
 			return err
 		}
+		rt.MaybeVerify(c, 512)
 		recv := b.sender ^ 1
-		try(c, &q, "genuine", recv, b.key, b.ak, b.ct, false)
+		try(c, &q, &rt, "genuine", recv, b.key, b.ak, b.ct, false)
 		// every single-bit flip of the 24-byte envelope (auth key id, msg_key)
 		for bit := 0; bit < 24*8; bit++ {
 			m := append([]byte{}, b.ct...)
@@ -108,7 +128,7 @@ func run(c *hc.Ctx) error {
 			if bit < 64 {
 				kind = "flip-keyid"
 			}
-			try(c, &q, kind, recv, b.key, b.ak, m, true)
+			try(c, &q, &rt, kind, recv, b.key, b.ak, m, true)
 		}
 		// ≥ 256 body bits: the first and last blocks completely, the rest sampled
 		body := len(b.ct) - 24
@@ -124,7 +144,7 @@ func run(c *hc.Ctx) error {
 			}
 			m := append([]byte{}, b.ct...)
 			m[24+bit/8] ^= 1 << (bit % 8)
-			try(c, &q, "flip-body", recv, b.key, b.ak, m, true)
+			try(c, &q, &rt, "flip-body", recv, b.key, b.ak, m, true)
 		}
 		// multi-bit modifications
 		for k := 0; k < 24; k++ {
@@ -132,35 +152,35 @@ func run(c *hc.Ctx) error {
 			for j := r.Range(2, 40); j > 0; j-- {
 				m[r.Intn(len(m))] ^= byte(1 + r.Intn(255))
 			}
-			try(c, &q, "multi-bit", recv, b.key, b.ak, m, true)
+			try(c, &q, &rt, "multi-bit", recv, b.key, b.ak, m, true)
 		}
 		// truncations and extensions by 1..32 bytes
 		for k := 1; k <= 32; k++ {
 			if k <= len(b.ct) {
-				try(c, &q, "truncate", recv, b.key, b.ak, b.ct[:len(b.ct)-k], true)
+				try(c, &q, &rt, "truncate", recv, b.key, b.ak, b.ct[:len(b.ct)-k], true)
 			}
-			try(c, &q, "extend", recv, b.key, b.ak, append(append([]byte{}, b.ct...), r.Bytes(k)...), true)
+			try(c, &q, &rt, "extend", recv, b.key, b.ak, append(append([]byte{}, b.ct...), r.Bytes(k)...), true)
 		}
-		try(c, &q, "truncate", recv, b.key, b.ak, b.ct[:hc.Pick(r, 0, 1, 7, 8, 23, 24, 25, 39, 40)], true)
+		try(c, &q, &rt, "truncate", recv, b.key, b.ak, b.ct[:hc.Pick(r, 0, 1, 7, 8, 23, 24, 25, 39, 40)], true)
 		// block-level surgery: drop / duplicate / swap whole 16-byte blocks
 		if body >= 32 {
 			m := append(append([]byte{}, b.ct[:24+16]...), b.ct[24+32:]...)
-			try(c, &q, "drop-block", recv, b.key, b.ak, m, true)
+			try(c, &q, &rt, "drop-block", recv, b.key, b.ak, m, true)
 			m = append([]byte{}, b.ct...)
 			copy(m[24:40], b.ct[40:56])
 			copy(m[40:56], b.ct[24:40])
-			try(c, &q, "swap-blocks", recv, b.key, b.ak, m, true)
+			try(c, &q, &rt, "swap-blocks", recv, b.key, b.ak, m, true)
 		}
 		// reflection: back to the side that produced it
-		try(c, &q, "reflected", b.sender, b.key, b.ak, b.ct, true)
+		try(c, &q, &rt, "reflected", b.sender, b.key, b.ak, b.ct, true)
 		// foreign keys: other key with its own id / other key claiming the same id / same key, other id
 		var other crypto.Key
 		copy(other[:], r.Bytes(256))
-		try(c, &q, "foreign-key", recv, other, other.WithID(), b.ct, true)
-		try(c, &q, "foreign-key-same-id", recv, other, crypto.AuthKey{Value: other, ID: b.ak.ID}, b.ct, true)
+		try(c, &q, &rt, "foreign-key", recv, other, other.WithID(), b.ct, true)
+		try(c, &q, &rt, "foreign-key-same-id", recv, other, crypto.AuthKey{Value: other, ID: b.ak.ID}, b.ct, true)
 		oid := b.ak
 		oid.ID[r.Intn(8)] ^= byte(1 + r.Intn(255))
-		try(c, &q, "same-key-other-id", recv, b.key, oid, b.ct, true)
+		try(c, &q, &rt, "same-key-other-id", recv, b.key, oid, b.ct, true)
 		// one-bit key difference, in a byte the derivation for this direction reads: MTProto 2.0 uses only
 		// auth_key[x, x+36), [40+x, 76+x) and [88+x, 120+x); the other bytes (e.g. 128..255) do not enter
 		// message encryption at all, by the specification.
@@ -171,20 +191,51 @@ func run(c *hc.Ctx) error {
 		}
 		pos := hc.Pick(r, x+r.Intn(36), 40+x+r.Intn(36), 88+x+r.Intn(32))
 		near[pos] ^= byte(1 << r.Intn(8))
-		try(c, &q, "near-key-same-id", recv, near, crypto.AuthKey{Value: near, ID: b.ak.ID}, b.ct, true)
+		try(c, &q, &rt, "near-key-same-id", recv, near, crypto.AuthKey{Value: near, ID: b.ak.ID}, b.ct, true)
 		// a message of an older/other session under the same key but for the other direction
 		if b2, ok := newBase(c, n); ok && b2.sender == b.sender {
-			try(c, &q, "foreign-key", recv, b.key, b.ak, b2.ct, true)
+			try(c, &q, &rt, "foreign-key", recv, b.key, b.ak, b2.ct, true)
 		}
 	}
 	// correctly keyed frames that fail *after* the msg_key check (length field, padding bounds): the only
 	// way to reach the later error returns; same nil-result monitor
 	for i := c.N(1500, 50000); i > 0; i-- {
-		c04shared.CraftedFrame(c, &q, "C05")
+		c04shared.CraftedFrame(c, &q, &rt, "C05")
+		rt.MaybeVerify(c, 512)
 		if err := q.MaybeFlush(c); err != nil {
 			return err
 		}
 	}
+	rt.Verify(c)
+	// mutants decided from 2..4 goroutines at once (DecryptFromBuffer has no shared state): verdicts as
+	// in the sequential run, accepted results re-read afterwards
+	workers := r.Range(2, 4)
+	c04shared.Concurrently(c, &rt, workers, c.N(2000, 40000)/workers, func(r *hc.RNG, w, i int) {
+		var key crypto.Key
+		copy(key[:], r.Bytes(256))
+		ak := key.WithID()
+		sender := hc.Pick(r, crypto.Client, crypto.Server)
+		n := 16 * r.Range(1, 12)
+		pt := append(c04shared.Header(r.U64(), r.U64(), r.U64(), uint32(r.U64()), uint32(n-16)), r.Bytes(n)...)
+		frame := c04shared.Seal(key, ak.ID, sender, pt)
+		mutated := r.Chance(70)
+		if mutated {
+			frame[r.Intn(len(frame))] ^= byte(1 << r.Intn(8))
+		}
+		_, dec := c04shared.Ciphers(sender)
+		got, err := dec.DecryptFromBuffer(ak, &bin.Buffer{Buf: append([]byte{}, frame...)})
+		line := fmt.Sprintf("dec %s %s %s %s", c04shared.SideName(sender^1), hc.Hex(key[:]), hc.Hex(ak.ID[:]), hc.Hex(frame))
+		c.Count("concurrent.decrypt")
+		switch {
+		case mutated && err == nil:
+			c.Fail("accepted-flip-concurrent", line, fmt.Sprintf("concurrent use, %d goroutines", workers))
+		case !mutated && err != nil:
+			c.Fail("genuine-rejected", line, fmt.Sprintf("concurrent use, %d goroutines: %v", workers, err))
+		case err != nil && got != nil:
+			c.Fail("rejected-message-yields-data", line, "concurrent use")
+		}
+		c04shared.KeepDecrypted(&rt, line, got)
+	})
 	if err := q.Flush(c); err != nil {
 		return err
 	}
